@@ -104,11 +104,13 @@ def gen_cases(tier, seed):
     return cases
 
 
-def _new(cfg, **over):
+def _new(cfg, positional=False, **over):
     from torchjd.aggregation import NashMTL
 
     c = dict(cfg)
     c.update(over)
+    if positional:  # the documented order (n_tasks, max_norm, update_weights_every, optim_niter)
+        return NashMTL(c["n_tasks"], c["max_norm"], c["k"], c["niter"])
     return NashMTL(n_tasks=c["n_tasks"], max_norm=c["max_norm"], update_weights_every=c["k"], optim_niter=c["niter"])
 
 
@@ -175,7 +177,7 @@ def run_case(case):
     for h in hists:
         if all(e == "R" for e in h):
             continue
-        agg = _new(cfg)
+        agg = _new(cfg, positional=True)  # the instance under test is built positionally, the reference instances by keyword
         outs = []
         for e in h:
             if e == "R":
